@@ -40,6 +40,7 @@ KM = [1, 2, 3, 2.5]
 ACC_FACTOR = 100.0  # |error| <= ACC_FACTOR * tol * scale
 EQ_FACTOR = 200.0
 NPTS = 24
+RHO_MAX = 50.0  # admissible variation max|g'|/min|g'| of the map over the interval
 
 # (label, class) - class "A": domain [-1,1], interval inside [-0.9,0.9]; class "B": interval inside [0.1,6]
 TRANSFORMS = (
@@ -230,16 +231,29 @@ def run_case(ctx, family, params):
     order = int(params["order"]) if pyfloat else int(family[-1])
     tol, label, method = float(params["tol"]), params["tf"], params.get("method")
     cls = dict(TRANSFORMS)[label]
-    short = kind == "bvp" and order == 3
-    L = float(rng.uniform(0.5, 1.0)) if short else float(rng.uniform(0.6, 1.8 if cls == "A" else 2.5))
     lo, hi = (-0.9, 0.9) if cls == "A" else (0.1, 6.0)
-    a = float(rng.uniform(lo, hi - L))
-    b = a + L
+    short = kind == "bvp" and order == 3
+    # interval + transform parameters: redrawn (shorter each time) until the slope of the map varies by at most RHO_MAX over
+    # the interval - beyond that the transformed ODE has a nearby branch point / huge stiffness ratio and the adaptive
+    # solvers' own error estimates (not the library) become unreliable (measured: DOP853 error 0.04 at tol 1e-6, rho 1700)
+    L0 = float(rng.uniform(0.5, 1.0)) if short else float(rng.uniform(0.6, 1.8 if cls == "A" else 2.5))
+    for attempt in range(40):
+        L = max(0.25, L0 * 0.9**attempt)
+        a = float(rng.uniform(lo, hi - L))
+        b = a + L
+        tf, tfdesc = build_transform(label, rng, kind, a, b)
+        g1 = np.array([ode_ref.map_derivs(tf, x, nmax=1)[0] for x in np.linspace(a, b, 9)])
+        rho = float(np.max(np.abs(g1)) / np.min(np.abs(g1)))
+        if rho <= RHO_MAX and np.all(g1 * g1[0] > 0):
+            break
+    else:
+        ctx.discard("generator: no interval with slope ratio <= RHO_MAX")
+        return
+    ctx.count("interval_redraws", attempt)
     mode = str(rng.choice(["callable", "callable", "mixed", "const"]))
     pr = ode_ref.random_problem(rng, order, xc=0.5 * (a + b), kind=kind, constant=(mode == "const"))
     if mode == "const":
         mode = str(rng.choice(["array", "list", "mixed", "callable"]))
-    tf, tfdesc = build_transform(label, rng, kind, a, b)
     subject = f"{kind}:{label}"
     esubj = f"{kind}-{method}:order{order}:{label}" if kind == "ivp" else f"bvp:order{order}:{label}"  # subject of exceptions
     if pyfloat:
@@ -261,7 +275,6 @@ def run_case(ctx, family, params):
     scale_t = np.maximum(_scales(pr, xs, exact, g, order, direction), scale_d)
     ctx.case_note("scale_direct", [float(s) for s in scale_d])
     ctx.case_note("scale_transformed", [float(s) for s in scale_t])
-    rho = float(np.max(np.abs(g[:, 0])) / np.min(np.abs(g[:, 0])))
     info = {"tol": tol, "method": method, "tf": tfdesc, "interval": [a, b], "coeff_mode": mode, "slope_ratio": rho}
 
     try:
